@@ -136,14 +136,14 @@ Proof.
   intros Hp. unfold fwd_all, fwd_rank. fold D M. rewrite mine_app.
   destruct (inv_coords_lt l) as [Hid Him].
   assert (E1 : mineN (match x_par l with
-                      | ParInput => if Nat.ltb 1 M then map (fun d => ins (g_mp c p d) 3 (x_rows l * (x_in l / M)) 0) (seq 0 D) else []
+                      | ParInput => if Nat.ltb 1 M then map (fun d => ins (g_mp c p d) 3 (nxdt c) (x_rows l * (x_in l / M)) 0) (seq 0 D) else []
                       | ParOutput => [] end) r
                = if Nat.eqb (pc c r) p then match x_par l with
-                      | ParInput => if Nat.ltb 1 M then [ins (g_mp c (pc c r) (dc c r)) 3 (x_rows l * (x_in l / M)) 0] else []
+                      | ParInput => if Nat.ltb 1 M then [ins (g_mp c (pc c r) (dc c r)) 3 (nxdt c) (x_rows l * (x_in l / M)) 0] else []
                       | ParOutput => [] end else []).
   { destruct (x_par l); [|now destruct (Nat.eqb (pc c r) p)].
     destruct (Nat.ltb 1 M); [|now destruct (Nat.eqb (pc c r) p)].
-    rewrite (mine_mp_row r p (fun d => ins (g_mp c p d) 3 (x_rows l * (x_in l / M)) 0) Hp (fun d => eq_refl)). destruct (Nat.eqb_spec (pc c r) p) as [->|]; reflexivity. }
+    rewrite (mine_mp_row r p (fun d => ins (g_mp c p d) 3 (nxdt c) (x_rows l * (x_in l / M)) 0) Hp (fun d => eq_refl)). destruct (Nat.eqb_spec (pc c r) p) as [->|]; reflexivity. }
   rewrite E1. clear E1.
   destruct (Nat.eqb_spec (pc c r) p) as [Epc|Npc].
   - subst p. f_equal. destruct (x_par l).
@@ -166,14 +166,14 @@ Proof.
   intros Hp. unfold bwd_all, bwd_rank. fold D M. rewrite mine_app.
   destruct (inv_coords_lt l) as [Hid Him].
   assert (E1 : mineN (match x_par l with
-                      | ParOutput => if Nat.ltb 1 M then map (fun d => ins (g_mp c p d) 3 (x_rows l * (x_out l / M)) 0) (seq 0 D) else []
+                      | ParOutput => if Nat.ltb 1 M then map (fun d => ins (g_mp c p d) 3 (nxdt c) (x_rows l * (x_out l / M)) 0) (seq 0 D) else []
                       | ParInput => [] end) r
                = if Nat.eqb (pc c r) p then match x_par l with
-                      | ParOutput => if Nat.ltb 1 M then [ins (g_mp c (pc c r) (dc c r)) 3 (x_rows l * (x_out l / M)) 0] else []
+                      | ParOutput => if Nat.ltb 1 M then [ins (g_mp c (pc c r) (dc c r)) 3 (nxdt c) (x_rows l * (x_out l / M)) 0] else []
                       | ParInput => [] end else []).
   { destruct (x_par l); [now destruct (Nat.eqb (pc c r) p)|].
     destruct (Nat.ltb 1 M); [|now destruct (Nat.eqb (pc c r) p)].
-    rewrite (mine_mp_row r p (fun d => ins (g_mp c p d) 3 (x_rows l * (x_out l / M)) 0) Hp (fun d => eq_refl)). destruct (Nat.eqb_spec (pc c r) p) as [->|]; reflexivity. }
+    rewrite (mine_mp_row r p (fun d => ins (g_mp c p d) 3 (nxdt c) (x_rows l * (x_out l / M)) 0) Hp (fun d => eq_refl)). destruct (Nat.eqb_spec (pc c r) p) as [->|]; reflexivity. }
   rewrite E1. clear E1.
   destruct (Nat.eqb_spec (pc c r) p) as [Epc|Npc].
   - subst p. f_equal. destruct (x_par l).
@@ -205,10 +205,10 @@ Proof.
   destruct (inv_coords_lt l) as [Hid Him].
   rewrite (mine_group r (g_mp c p (dc c (x_inv l))) _ (pre_msgs_group l _ _)).
   rewrite (memb_mp r p (dc c (x_inv l)) Hp Hid).
-  assert (E2 : mineN (if Nat.ltb 1 D then map (fun m => ins (g_dp c p m) 2 (gshard c l) (S (rank_of D M p (dc c (x_inv l)) m))) (seq 0 M) else []) r
-             = if Nat.eqb (pc c r) p then (if Nat.ltb 1 D then [ins (g_dp c (pc c r) (mc c r)) 2 (gshard c l) (S (rank_of D M (pc c r) (dc c (x_inv l)) (mc c r)))] else []) else []).
+  assert (E2 : mineN (if Nat.ltb 1 D then map (fun m => ins (g_dp c p m) 2 (nxdt c) (gshard c l) (S (rank_of D M p (dc c (x_inv l)) m))) (seq 0 M) else []) r
+             = if Nat.eqb (pc c r) p then (if Nat.ltb 1 D then [ins (g_dp c (pc c r) (mc c r)) 2 (nxdt c) (gshard c l) (S (rank_of D M (pc c r) (dc c (x_inv l)) (mc c r)))] else []) else []).
   { destruct (Nat.ltb 1 D); [|now destruct (Nat.eqb (pc c r) p)].
-    rewrite (mine_dp_row r p (fun m => ins (g_dp c p m) 2 (gshard c l) (S (rank_of D M p (dc c (x_inv l)) m))) Hp (fun m => eq_refl)). destruct (Nat.eqb_spec (pc c r) p) as [->|]; reflexivity. }
+    rewrite (mine_dp_row r p (fun m => ins (g_dp c p m) 2 (nxdt c) (gshard c l) (S (rank_of D M p (dc c (x_inv l)) m))) Hp (fun m => eq_refl)). destruct (Nat.eqb_spec (pc c r) p) as [->|]; reflexivity. }
   rewrite E2. clear E2.
   destruct (Nat.eqb_spec (pc c r) p) as [Epc|Npc]; cbn [andb]; [|reflexivity].
   subst p. f_equal. destruct (Nat.eqb_spec (dc c r) (dc c (x_inv l))) as [E|]; [|reflexivity]. now rewrite E.
@@ -251,14 +251,14 @@ Proof.
            | NFwd i => match nth_error (layers p) i with Some l => fwd_all c p l | None => [] end
            | NBwd i => match nth_error (layers p) i with Some l => bwd_all c p l | None => [] end
            | NStep => flat_map (grad_all c p) (rev (layers p))
-           | NUser ns => if Nat.ltb 1 (nD c) then flat_map (fun n => map (fun m => ins (g_dp c p m) 1 n 0) (seq 0 (nM c))) ns else []
+           | NUser ns => if Nat.ltb 1 (nD c) then flat_map (fun n => map (fun m => ins (g_dp c p m) 1 (nxdt c) n 0) (seq 0 (nM c))) ns else []
            end) r
     = if Nat.eqb (pc c r) p then
         match e with
         | NFwd i => match nth_error (layers p) i with Some l => fwd_rank c r l | None => [] end
         | NBwd i => match nth_error (layers p) i with Some l => bwd_rank c r l | None => [] end
         | NStep => flat_map (grad_rank c r) (rev (layers p))
-        | NUser ns => if Nat.ltb 1 (nD c) then map (fun n => ins (g_dp c p (mc c r)) 1 n 0) ns else []
+        | NUser ns => if Nat.ltb 1 (nD c) then map (fun n => ins (g_dp c p (mc c r)) 1 (nxdt c) n 0) ns else []
         end else []).
   { intros p Hin. apply in_seq in Hin. assert (Hp' : p < P) by lia. destruct e.
     - destruct (nth_error (layers p) i) as [l|]; [now apply fwd_proj|now destruct (Nat.eqb (pc c r) p)].
@@ -267,9 +267,9 @@ Proof.
       apply flat_map_if.
     - fold D M. destruct (Nat.ltb 1 D); [|now destruct (Nat.eqb (pc c r) p)].
       rewrite mine_flat_map.
-      rewrite (flat_map_ext _ (fun n => if Nat.eqb (pc c r) p then [ins (g_dp c p (mc c r)) 1 n 0] else [])).
+      rewrite (flat_map_ext _ (fun n => if Nat.eqb (pc c r) p then [ins (g_dp c p (mc c r)) 1 (nxdt c) n 0] else [])).
       + rewrite flat_map_if. destruct (Nat.eqb (pc c r) p); [|reflexivity]. clear. induction ns as [|n t IHn]; [reflexivity|]. cbn [flat_map map app]. now rewrite IHn.
-      + intros n. apply (mine_dp_row r p (fun m => ins (g_dp c p m) 1 n 0) Hp' (fun m => eq_refl)). }
+      + intros n. apply (mine_dp_row r p (fun m => ins (g_dp c p m) 1 (nxdt c) n 0) Hp' (fun m => eq_refl)). }
   rewrite (flat_map_ext_in' _ _ _ G). rewrite (stage_pick _ r Hp). cbv beta.
   unfold nx_rank. cbv zeta. destruct e; reflexivity.
 Qed.
